@@ -459,10 +459,12 @@ namespace Pistache::Http
                     if (!cursor.advance(1))
                         return Incomplete;
 
+                // convert the text of the line only: strtol on the raw buffer skips
+                // leading white space (CR, LF) and can run past the end of the data
                 char* end;
-                const char* raw = chunkSize.rawText();
-                auto sz         = std::strtol(raw, &end, 16);
-                if (*end != '\r')
+                const std::string sizeText = chunkSize.text();
+                auto sz                    = std::strtol(sizeText.c_str(), &end, 16);
+                if (sizeText.empty() || end != sizeText.c_str() + sizeText.size() || sz < 0)
                     throw std::runtime_error("Invalid chunk size");
 
                 // CRLF
@@ -512,6 +514,8 @@ namespace Pistache::Http
             cursor.advance(size - alreadyAppendedChunkBytes);
 
             // trailing EOL
+            if (!cursor.eol())
+                throw std::runtime_error("Invalid chunk, expected CRLF after the chunk data");
             cursor.advance(2);
 
             message->body_.append(chunkData.rawText(), size - alreadyAppendedChunkBytes);
